@@ -10,12 +10,12 @@
    successor lists together have at least (number of blocks - 1) members.
    ([b_succs] is duplicate-free by C12_at_most_two_succs, so its length is the
    size of the `HashSet` the code asks for.) *)
-From stdpp Require Import list.
+From stdpp Require Import list list_numbers.
 Require Import Model.Lift Spec.CfgSpec Proofs.LiftTheorems.
 Import Base(outcome, Ok).
 
 (* edges, as run_complexity_analysis accumulates it *)
-Definition edge_count (g : graph) : nat := sum_list (map (fun b => length (b_succs b)) g).
+Definition edge_count (g : graph) : nat := list_sum (map (fun b => length (b_succs b)) g).
 
 Lemma path_nil_eq g i j : path g i [] j -> i = j.
 Proof. by inversion 1. Qed.
@@ -60,6 +60,6 @@ Qed.
    computed complexity is at least 1 *)
 Lemma complexity_no_underflow body g :
   lift body = Ok g ->
-  length g <= 1 + sum_list (map (fun b => length (b_succs b)) g) /\
-  1 <= 2 + sum_list (map (fun b => length (b_succs b)) g) - length g.
+  length g <= 1 + list_sum (map (fun b => length (b_succs b)) g) /\
+  1 <= 2 + list_sum (map (fun b => length (b_succs b)) g) - length g.
 Proof. intros Hl. pose proof (nodes_le_one_plus_edges body g Hl) as H. unfold edge_count in H. lia. Qed.
